@@ -198,7 +198,7 @@ def run(ctx):
                 if c.startswith("ok") != mm.startswith("ok"):
                     s3.disagree({"src": pr["src"][:500]}, mm[:200], c[:200])
                 continue
-            if c != mm:
+            if not impl.same_outcome(c, mm):
                 s3.disagree({"src": pr["src"][:2000], "rom": pr["rom"]}, mm[:300], c[:300])
         s3.sample({"src": fam[1]})
     finally:
